@@ -5,6 +5,7 @@ package blockservice
 
 import (
 	"context"
+	"fmt"
 	"io"
 	"sync"
 
@@ -273,6 +274,10 @@ func getBlock(ctx context.Context, c cid.Cid, bs BlockService, fetchFactory func
 	if err != nil {
 		return nil, err
 	}
+	if !blk.Cid().Equals(c) {
+		// never cache, announce or return a block other than the one that was asked for
+		return nil, fmt.Errorf("blockservice: exchange returned block %s when %s was requested", blk.Cid(), c)
+	}
 	// also write in the blockstore for caching, inform the exchange that the block is available
 	err = blockstore.Put(ctx, blk)
 	if err != nil {
@@ -360,6 +365,11 @@ func getBlocks(ctx context.Context, ks []cid.Cid, blockservice BlockService, fet
 			return
 		}
 
+		wanted := cid.NewSet()
+		for _, c := range misses {
+			wanted.Add(c)
+		}
+
 		ex := blockservice.Exchange()
 		var cache [1]blocks.Block // preallocate once for all iterations
 		for {
@@ -372,6 +382,12 @@ func getBlocks(ctx context.Context, ks []cid.Cid, blockservice BlockService, fet
 				b = v
 			case <-ctx.Done():
 				return
+			}
+
+			if !wanted.Has(b.Cid()) {
+				// never cache, announce or emit a block that was not asked for
+				logger.Errorf("exchange delivered block %s that was not requested, dropping it", b.Cid())
+				continue
 			}
 
 			// write in the blockstore for caching
